@@ -274,6 +274,19 @@ for pid, nm in (("C05", "c05_store_sweep_async"), ("C04", "c04_store_sweep_async
     kw = {} if pid == "C05" else {"alias_of": "c05_store_sweep_async"}
     H(pid, nm, "store", SWFA, SWB + "; the async flavour's sweep (a plain loop; the sync flavour's iterator chain is thorough-tier only); policy cost/remove are recorders", timeout=7200, mem_gb=50, tier="thorough", features="sync,async", **kw)
 
+# more cross-property aliases
+H("C02", "c02_new_wiring", "cache::sync", WIRE, WIREB + "; a New item for an already resident key (stale duplicate) must not overwrite the newer value", timeout=1800, cover_tags=["new"], alias_of="c06_new_wiring")
+IDX["C02"]["assumptions"].append(WIREA)
+H("C03", "c03_client_insert", "cache::sync", CLI, CB2 + "; re-inserting a resident key replaces its deadline", timeout=1800, cover_tags=["client"], alias_of="c02_client_insert")
+IDX["C03"]["assumptions"] += [CHAN, ADDC, PARK]
+H("C06", "c06_store_sweep", "store", SWF, SWB + "; the sweep un-charges exactly the entries it removes", timeout=2400, mem_gb=24, alias_of="c05_store_sweep", unwindset=SWU)
+IDX["C06"]["assumptions"].append(SWA)
+
+RACEF = ["CacheProcessor::handle_item(New) with the yield point between policy.add and store.try_insert", "Cache::clear", "LFUPolicy::clear", "ShardedMap::clear", "CacheProcessor::handle_clear_event"]
+RACEB = "empty cache with room; one New item for an arbitrary key; optionally a client's clear() interposed (as a whole) between policy.add and store.try_insert; then the processor handles the clear signal"
+H("C06", "c06_race_clear_in_new", "cache::sync", RACEF, RACEB, timeout=1800, mem_gb=20)
+H("C11", "c11_race_clear_in_new", "cache::sync", RACEF, RACEB, timeout=1800, mem_gb=20, alias_of="c06_race_clear_in_new")
+
 P("PROBE", [])
 H("PROBE", "probe_new_n0_nottl", "cache::sync", [], "probe", timeout=1200, mem_gb=20)
 H("PROBE", "probe_new_n0_ttl", "cache::sync", [], "probe", timeout=1200, mem_gb=20)
